@@ -250,7 +250,7 @@ func runCase(c Case, x *ev.Ctx) error {
 		if errC == nil {
 			return fmt.Errorf("Caddyfile config with %s was accepted instead of being rejected at load time:\n%s", c.Defect, cfBody)
 		}
-		x.NonTrivial(fmt.Sprintf("neg|%s|%d|%v%v%v", c.Defect, c.Typo%4, c.CRLBlock, c.CDPBlock, c.OCSPBlock))
+		x.NonTrivial(fmt.Sprintf("neg|%s|%d|%d|%v%v%v", c.Defect, c.Typo%4, c.Typo%3, c.CRLBlock, c.CDPBlock, c.OCSPBlock))
 		return nil
 	}
 	if errJ != nil {
@@ -421,6 +421,10 @@ func eqDER(a, b [][]byte) bool {
 
 func val(c Case, option, good string) string {
 	if c.Defect == "invalid:"+option {
+		if option == "update_interval" && c.Typo%3 != 0 {
+			// an interval that parses as a duration but cannot drive a refresh schedule
+			return []string{"", "0s", "-5m"}[c.Typo%3]
+		}
 		return map[string]string{"mode": "prefer-ocsp", "storage_type": "ssd", "update_interval": "10 minutes", "signature_validation_mode": "strict",
 			"crl_fetch_mode": "lazy", "crl_cdp_strict": "maybe", "default_cache_duration": "soon", "ocsp_aia_strict": "yes please"}[option]
 	}
